@@ -60,6 +60,19 @@ CHECKS = {
         design_ref="DESIGN.md 4 C02",
         note="Trusted: TLC/SANY/Json module, numpy, float32 exactness on |v|<2^24. Exhaustive only within the listed extents (<=4-5), k<=3.",
     ),
+    "C05": dict(
+        engine="tlc+replay",
+        technique="TLA+ register machine over the image algebra with a twin run on g-transformed leaves; TypeSound (twin = Act(g, reg)) and the algebra laws are TLC invariants over all programs to the depth bound; every program replayed on real GeometricImage objects (both runs) with data and declared type compared after each step",
+        category="model_checking",
+        text=("TLC enumerates every well-typed program up to the depth bound (sum, difference, scalar multiple, tensor product, "
+              "transposition, single/multiple contraction, Levi-Civita contraction, squared pixel norm, convolution with a filter "
+              "leaf) over random integer leaves x chosen group elements and checks twin[i]=Act(g,reg[i]) for every register plus "
+              "contraction order/pair-order independence and tensor-product commutativity up to transposition. Both the plain and the "
+              "g-transformed run of every program are replayed on the code, comparing values exactly and the declared k/parity/D/"
+              "extents/flags after each step; conformance of both runs to a spec in which TypeSound holds is the property on the code."),
+        design_ref="DESIGN.md 4 C05",
+        note="Trusted: TLC/SANY/Json; generic-point argument for polynomial identities (random integer leaves per seed); float32 exact; depth 2 exhaustive (3 thorough), depth 4 simulated.",
+    ),
     "C12": dict(
         engine="tlc+replay",
         technique="TLA+ multi-image store machine (MultiImage.tla operators defined by type, explicit storage order) model-checked over all construction histories; every TLC behaviour replayed into real MultiImage objects with the full abstract state compared after each step",
